@@ -251,8 +251,8 @@ RULE_ADDENDA = {
     "C12": "Also: the fake stream's n-th SendMsg can block until the underlying RecvMsg is called; nested=3 (a side call on a derived context while the outer unary call is in its invoker). Round 5: the caller's context carries a MultiEndpoint name (NewMEContext) that invoker, streamer and Context() must still see. Round 6: after the program a unary call goes through the interceptor; the context the stream was created with must still carry the stream's first message.",
     "C13": "Also: lists naming an endpoint twice are modelled exactly (first occurrence); negative recovery timeout / switching delay (= none); construction with an empty list; endpoint names with separators; 300-endpoint universes; in-place edited caller slices. Round 5: editOptions (the caller re-uses its options object right after the construction). Round 6: re-split lists (\"a,b\",\"c\" <-> \"a\",\"b,c\"), an endpoint added while the current one is serving, nil options.",
     "C14": "Also: duplicates exact, negative durations, in-flight timers (a fired timer whose callback runs late). Round 5: editOptions as in C13. Round 6: lists of 13-40 endpoints with reports for members; manydrops (3-130 delayed switches in a row overtaken by a reorder, then one that must happen).",
-    "C15": "Also: construction without DialFunc and through the deprecated constructor (reduced scenario); caller dial options incl. a default service config; MultiEndpoints named like endpoint addresses, removed names kept among the call contexts; duplicates exact; RunStaleMonitor (verbose shards: the monitor of a removed pool is held at its log line until the endpoint is back and READY, then released). Round 5: contexts tagged more than once and a MultiEndpoint named with the empty string; endpoints whose addresses contain a comma; closing round after the timers of the history; upquick (a delayed switch is pending when the next update arrives); owned-schedule variant in which the updater is held with the pool state it has read. Round 6: a MultiEndpoint created by the update with a switching delay only is checked at once; retry of the same options after a dial failure.",
-    "C16": "Also: nil options pointer (construction and update); second Close; update after Close (must be refused, nothing left behind); a pool connection closed by the application before Close; Close while updaters are at work (concurrent part). Round 5: comma endpoints (split/merge steering), closing round after the timers, upquick - as in C15. Round 6: rejected updates carry a dialer of their own that must never be used, accepted ones often none; rule close-timers (timer callbacks of the object's MultiEndpoints after Close() returned: open known finding multiendpoint-timers-outlive-close).",
+    "C15": "Also: construction without DialFunc and through the deprecated constructor (reduced scenario); caller dial options incl. a default service config; MultiEndpoints named like endpoint addresses, removed names kept among the call contexts; duplicates exact; RunStaleMonitor (verbose shards: the monitor of a removed pool is held at its log line until the endpoint is back and READY, then released). Round 5: contexts tagged more than once and a MultiEndpoint named with the empty string; endpoints whose addresses contain a comma; closing round after the timers of the history; upquick (a delayed switch is pending when the next update arrives); owned-schedule variant in which the updater is held with the pool state it has read. Round 6: a MultiEndpoint created by the update with a switching delay only is checked at once; retry of the same options after a dial failure. Operation extclose: the application closes the connection of one pool in mid-history (the endpoint is as good as down until an update drops it; naming it again dials a fresh pool).",
+    "C16": "Also: nil options pointer (construction and update); second Close; update after Close (must be refused, nothing left behind); a pool connection closed by the application before Close; Close while updaters are at work (concurrent part). Round 5: comma endpoints (split/merge steering), closing round after the timers, upquick - as in C15. Round 6: rejected updates carry a dialer of their own that must never be used, accepted ones often none; rule close-timers (timer callbacks of the object's MultiEndpoints after Close() returned: open known finding multiendpoint-timers-outlive-close). Operation extclose: the application closes the connection of one pool in mid-history (the endpoint is as good as down until an update drops it; naming it again dials a fresh pool).",
     "C17": "Also: caller option slice with spare capacity that the caller appends to later; pools added by a later update get the min-size check; the same buffer handed to ParseConfig again; watermarks up to 2^32-1. Round 5: method names that resemble a listed name (with/without the leading slash, other case, prefix, doubled slash) are plain methods; the configuration wrapped under the policy name or in a service-config layout is malformed. Round 6: both constructors; the registered balancer builder is wrapped and records the configuration each pool is dialed with (equal to the supplied one, also with '%' in names and key paths).",
     "C18": "Also: millisecond counts that do not fit a time.Duration are malformed; base <= 0 (also negative) with retry counts up to 2^62 (every call bounded by 20 s of real time); payload cases are sequences, earlier (payload, hash) pairs are re-checked after later calls. Round 5: two flag sets in one process built from the same pieces cut at different places.",
     "C19": "Also: nil and typed-nil values of every root type; an underlying codec that returns spare capacity; dynamicpb messages (field order free); message types that declare field 2047 themselves (32-bit kinds: open known finding type-declares-field-2047). Round 5: incoming messages between Marshal calls (intact, damaged checksum or payload, truncated, garbage); outputs relayed through google.protobuf.Empty and marshalled again. Round 6: the receiver wipes its buffer after Unmarshal returned; the caller overwrites every third output after checking it.",
